@@ -103,6 +103,48 @@ def strategy_steps(sc, tr, idx):
     return defs, terms, steps
 
 
+YASPECTS = {0: "sys-kind", 1: "sys-strategy", 2: "sys-server"}
+SYS_IMPORTS = IMPORTS.replace("Check.StrategyCheck.", "Check.StrategyCheck Check.SystemCheck.").replace(
+    "Model.Uist Model.Broker", "Model.Uist Model.Server Model.Broker")
+
+
+def dataset_term(sc):
+    """the Penelope the scenario's add_quote calls build: dates in first-insertion order, rows by date"""
+    dates, rows = [], {}
+    for bid, ask, date, sym in sc["dataset"]:
+        if date not in rows:
+            rows[date] = {}
+            dates.append(date)
+        rows[date][sym] = dict(key=sym, bid=bid, ask=ask, date=date, symbol=sym)
+    return gc("mkDataset", gl([gz(d) for d in dates]),
+              gl([gt(gz(d), gl([exch.g_quote(rows[d][k]) for k in sorted(rows[d])])) for d in dates]))
+
+
+def g_sys(sn, costs_name, ws_name, ds_name):
+    srv = sn["server"]
+    app = gc("mkApp", gl([gt(gn(0), gc("mkBacktest", gz(srv["date"]), "%d%%nat" % srv["pos"], exch.g_usnap(srv["exch"]), gs("D")))]),
+             gn(1), gl([gt(gs("D"), ds_name)]))
+    return gc("mkSys", g_strategy(sn, costs_name, ws_name), app, gn(0))
+
+
+def system_terms(sc, tr, idx):
+    """one ystep per update(): the composed model from the observed pre-state of strategy AND server"""
+    costs_name, ws_name, ds_name = "costs_%d" % idx, "ws_%d" % idx, "dset_%d" % idx
+    defs = "Definition %s : dataset (quotes (quote float)) := %s." % (ds_name, dataset_term(sc))
+    terms = []
+    for k, r in enumerate(tr["results"]):
+        if sc["ops"][k]["op"] != "update":
+            continue
+        pre, panic = tr["snaps"][k], "panic" in r
+        post = pre if panic else tr["snaps"][k + 1]
+        ticks = [c for c in r["calls"] if c.get("effect") == "tick" and not c.get("err")]
+        adm = ticks[0]["admitted"] if ticks else []
+        perm = exch.compute_perm(pre["server"]["exch"]["buffer"], adm, exch.ukey)
+        terms.append((k, gc("mkYStep", g_sys(pre, costs_name, ws_name, ds_name), "(map N.to_nat %s)" % exch.g_perm(perm),
+                            B.g_strs(B.positions(post["broker"])), g_sys(post, costs_name, ws_name, ds_name), gb(panic))))
+    return defs, terms
+
+
 def oracle_c16(sc, steps):
     dates = sorted(set(q[2] for q in sc["dataset"]))
     N = len(dates)
@@ -186,12 +228,24 @@ def run_property(res, prop, tier, seed, replay, prop_files):
         idxmap.append([x[0] for x in t])
         steps.append(s)
     cache = {}
+    have_sys = os.path.exists(os.path.join(COQ, "Check", "SystemCheck.v"))
+    sys_defs, sys_terms, sys_idx = [], [], []
+    if have_sys:
+        for i, (sc, tr) in enumerate(zip(scs, trs)):
+            d, t = system_terms(sc, tr, i)
+            sys_defs.append(defs[i] + "\n" + d)
+            sys_terms.append([x[1] for x in t])
+            sys_idx.append([x[0] for x in t])
 
     def eval_fn(val):
         val = frozenset(val)
         if val not in cache:
             r = eval_steps(wd, "t", IMPORTS, terms, "tstep_mask %s" % g_quirks(val), sc_defs=defs)
-            cache[val] = [(sc, idxmap[sc][st], tmask_names(m)) for sc, st, m in sorted(r)]
+            out = [(sc, idxmap[sc][st], tmask_names(m)) for sc, st, m in sorted(r)]
+            if have_sys:
+                r2 = eval_steps(wd, "y", SYS_IMPORTS, sys_terms, "ystep_mask %s" % g_quirks(val), sc_defs=sys_defs)
+                out += [(sc, sys_idx[sc][st], [n for b, n in YASPECTS.items() if m & (1 << b)]) for sc, st, m in sorted(r2)]
+            cache[val] = sorted(out)
         return cache[val]
 
     def run_witness(sc):
@@ -248,6 +302,7 @@ def run_property(res, prop, tier, seed, replay, prop_files):
         samples=[dict(weights=[[w[0], show_f(w[1])] for w in s0["weights"]], style=s0["style"],
                       ops=[{k: (show_f(v) if k == "x" else v) for k, v in o.items()} for o in s0["ops"][:8]])],
         traces_validated_against_impl=len(scs), scenarios=len(scs), direct_reading_failures=len(direct),
+        composed_model_update_steps=sum(len(t) for t in sys_terms),
         op_mix={k: sum(1 for sc in scs for o in sc["ops"] if o["op"] == k)
                 for k in ("init", "update", "withdraw", "withdraw_liq", "run", "perf")})
     return ob
